@@ -666,6 +666,145 @@ theorem correct_alternative_hellinger_refines (fuel : Nat) (d : α) :
 theorem correct_alternative_jaccard_refines (fuel : Nat) (v : α) :
     GenMetric.correct_alternative_jaccard fuel v = some (Metrics.correctAlternativeJaccard v) := rfl
 
+/-! ### mahalanobis: a local array filled by a first loop, then a nested loop over the 2-D `vinv` -/
+section Mahalanobis
+
+theorem wr_lt {β : Type} (a : Array β) (k : Nat) (v : β) (h : k < a.size) :
+    wr a (k : Int) v = some (a.setIfInBounds k v) := by
+  simp [wr, h]
+
+/-- `diff = x - y` as the array the first loop builds -/
+def diffArr (x y : Array α) : Array α := (List.zipWith (fun a b => a - b) x.toList y.toList).toArray
+
+theorem diffArr_size (x y : Array α) (h : x.size = y.size) : (diffArr x y).size = x.size := by
+  simp [diffArr, h]
+
+theorem diffArr_get (x y : Array α) (h : x.size = y.size) (k : Nat) (hk : k < x.size) :
+    (diffArr x y)[k]? = some (x[k] - y[k]'(h ▸ hk)) := by
+  simp [diffArr, List.getElem?_zipWith, hk, (h ▸ hk : k < y.size)]
+
+/-- first loop: every cell `< k` already holds `x[j] - y[j]`; afterwards the whole array does -/
+theorem mahalanobis_loop0 (x y : Array α) (h : x.size = y.size) :
+    ∀ (fuel k : Nat), k ≤ x.size → x.size - k + 1 ≤ fuel → ∀ (d : Array α), d.size = x.size →
+      (∀ j, j < k → d[j]? = (diffArr x y)[j]?) →
+      mahalanobis.loop0 x y (x.size : Int) fuel d (k : Int)
+        = some (.next (diffArr x y, (x.size : Int))) := by
+  intro fuel
+  induction fuel with
+  | zero => intro k hk hf; omega
+  | succ fuel ih =>
+    intro k hk hf d hd hpre
+    rw [mahalanobis.loop0]
+    by_cases c : k < x.size
+    · have c' : (k : Int) < ((x.size : Nat) : Int) := Int.ofNat_lt.2 c
+      have ek : (k : Int) + 1 = ((k + 1 : Nat) : Int) := by omega
+      simp only [c', if_true, rd_lt x k c, rd_lt y k (h ▸ c), Option.bind_eq_bind, Option.bind_some, ek,
+        wr_lt d k _ (hd ▸ c)]
+      refine ih (k + 1) (by omega) (by omega) _ (by simpa using hd) ?_
+      intro j hj
+      by_cases e : j = k
+      · subst e
+        rw [diffArr_get x y h j c]
+        simp [hd ▸ c]
+      · have : j < k := by omega
+        rw [← hpre j this]
+        simp [Array.getElem?_setIfInBounds, Ne.symm e]
+    · have c' : ¬ (k : Int) < ((x.size : Nat) : Int) := by omega
+      have e : k = x.size := by omega
+      subst e
+      simp only [c', if_false, Option.pure_def]
+      have : d = diffArr x y := by
+        apply Array.ext (by rw [hd, diffArr_size x y h])
+        intro j h1 h2
+        have := hpre j (hd ▸ h1)
+        simpa [h1, h2] using this
+      rw [this]
+
+/-- inner loop: the dot product of row `i` of `vinv` with `diff` -/
+theorem mahalanobis_loop2 (vinv : Array (Array α)) (d : Array α) (i : Nat) (hi : i < vinv.size)
+    (hr : vinv[i].size = d.size) :
+    ∀ (fuel j : Nat), j ≤ d.size → d.size - j + 1 ≤ fuel → ∀ (t : α),
+      mahalanobis.loop2 vinv d (i : Int) (d.size : Int) fuel t (j : Int)
+        = some (.next (fold2 (fun r a b => r + a * b) vinv[i] d j t, (d.size : Int))) := by
+  intro fuel
+  induction fuel with
+  | zero => intro j hj hf; omega
+  | succ fuel ih =>
+    intro j hj hf t
+    rw [mahalanobis.loop2]
+    by_cases c : j < d.size
+    · have c' : (j : Int) < ((d.size : Nat) : Int) := Int.ofNat_lt.2 c
+      have ej : (j : Int) + 1 = ((j + 1 : Nat) : Int) := by omega
+      simp only [c', if_true, rd_lt vinv i hi, rd_lt vinv[i] j (hr ▸ c), rd_lt d j c, Option.bind_eq_bind,
+        Option.bind_some, ej, fold2_lt _ _ _ j _ (hr ▸ c) c]
+      exact ih (j + 1) (by omega) (by omega) _
+    · have c' : ¬ (j : Int) < ((d.size : Nat) : Int) := by omega
+      have e : j = d.size := by omega
+      subst e
+      simp only [c', if_false, Option.pure_def, fold2_ge _ _ _ _ _ (Nat.le_of_eq hr)]
+
+/-- the outer loop of the model from row `k` on -/
+def qfFrom (vinv : Array (Array α)) (d : Array α) (k : Nat) (r : α) : α :=
+  (((vinv.toList.map Array.toList).drop k).zip (d.toList.drop k)).foldl
+    (fun r p => r + dotProd p.1 d.toList * p.2) r
+
+theorem qfFrom_lt (vinv : Array (Array α)) (d : Array α) (k : Nat) (r : α) (hv : k < vinv.size)
+    (hd : k < d.size) :
+    qfFrom vinv d k r = qfFrom vinv d (k + 1) (r + dotProd vinv[k].toList d.toList * d[k]) := by
+  have e1 : (vinv.toList.map Array.toList).drop k
+      = vinv[k].toList :: (vinv.toList.map Array.toList).drop (k + 1) := by
+    rw [List.drop_eq_getElem_cons (by simpa using hv)]; simp
+  simp only [qfFrom, e1, drop_cons d k hd, List.zip_cons_cons, List.foldl_cons]
+
+theorem qfFrom_ge (vinv : Array (Array α)) (d : Array α) (k : Nat) (r : α) (hd : d.size ≤ k) :
+    qfFrom vinv d k r = r := by
+  have e : d.toList.drop k = [] := List.drop_eq_nil_of_le (by simp; exact hd)
+  simp [qfFrom, e]
+
+theorem mahalanobis_loop1 (x : Array α) (vinv : Array (Array α)) (d : Array α) (hd : d.size = x.size)
+    (hv : vinv.size = x.size) (hr : ∀ i (hi : i < vinv.size), vinv[i].size = x.size) :
+    ∀ (fuel k : Nat), k ≤ x.size → (x.size - k) + x.size + 2 ≤ fuel → ∀ (r : α),
+      mahalanobis.loop1 x vinv d (x.size : Int) fuel r (k : Int)
+        = some (.next (qfFrom vinv d k r, (x.size : Int))) := by
+  intro fuel
+  induction fuel with
+  | zero => intro k hk hf; omega
+  | succ fuel ih =>
+    intro k hk hf r
+    rw [mahalanobis.loop1]
+    by_cases c : k < x.size
+    · have c' : (k : Int) < ((x.size : Nat) : Int) := Int.ofNat_lt.2 c
+      have ek : (k : Int) + 1 = ((k + 1 : Nat) : Int) := by omega
+      have hi : k < vinv.size := hv ▸ c
+      have L := mahalanobis_loop2 vinv d k hi (by rw [hr k hi, hd]) fuel 0 (by omega) (by omega) 0
+      rw [e0, hd] at L
+      simp only [c', if_true, L, rd_lt d k (hd ▸ c), Option.bind_eq_bind, Option.bind_some, ek,
+        qfFrom_lt vinv d k r hi (hd ▸ c)]
+      exact ih (k + 1) (by omega) (by omega) _
+    · have c' : ¬ (k : Int) < ((x.size : Nat) : Int) := by omega
+      have e : k = x.size := by omega
+      subst e
+      simp only [c', if_false, Option.pure_def, qfFrom_ge vinv d _ r (Nat.le_of_eq hd)]
+
+/-- **`mahalanobis` (translated) = model**: `vinv` is `n × n` (`n = x.size = y.size`), fuel
+`≥ 2n + 2` (the inner loop runs on the outer loop's remaining fuel); no out-of-bounds load or
+store, every cell of the `np.empty` array is stored to before it is loaded. -/
+theorem mahalanobis_refines (x y : Array α) (vinv : Array (Array α)) (h : x.size = y.size)
+    (hv : vinv.size = x.size) (hr : ∀ i (hi : i < vinv.size), vinv[i].size = x.size) (fuel : Nat)
+    (hf : 2 * x.size + 2 ≤ fuel) :
+    GenMetric.mahalanobis fuel x y vinv
+      = some (Metrics.mahalanobis x.toList y.toList (vinv.toList.map Array.toList)) := by
+  have hz : ((x.size : Nat) : Int).toNat = x.size := by omega
+  have L0 := mahalanobis_loop0 x y h fuel 0 (by omega) (by omega) (mkEmpty (x.size : Int))
+    (by simp [mkEmpty]) (by intro j hj; omega)
+  have L1 := mahalanobis_loop1 x vinv (diffArr x y) (diffArr_size x y h) hv hr fuel 0 (by omega)
+    (by omega) 0
+  rw [e0] at L0 L1
+  simp only [GenMetric.mahalanobis, L0, L1, Option.bind_eq_bind, Option.bind_some, Option.pure_def]
+  simp [Metrics.mahalanobis, quadForm, vecDiff, qfFrom, diffArr]
+
+end Mahalanobis
+
 /-! ### the two kernels that need `sin` / `cos` / `arcsin` -/
 section TrigKernels
 variable [Trig α]
